@@ -56,7 +56,9 @@ func (c *ChangeProcessorImpl) VerifC01PeekUpsert(obj client.Object) (p VerifC01P
 	return p
 }
 
-// VerifC01PeekDelete evaluates the registered predicate on the bare type + name.
+// VerifC01PeekDelete evaluates the registered predicate as changeTrackingUpdater.delete does since ecaa5d2: on the
+// stored object for persisted kinds, on the bare type otherwise. (The harness cross-checks the peek against the
+// observed change of the pending changeType, so a tree in which delete judges something else is noticed.)
 func (c *ChangeProcessorImpl) VerifC01PeekDelete(objType ngftypes.ObjectType, nsname types.NamespacedName) (p VerifC01Peek) {
 	c.lock.Lock()
 	defer c.lock.Unlock()
@@ -67,9 +69,13 @@ func (c *ChangeProcessorImpl) VerifC01PeekDelete(objType ngftypes.ObjectType, ns
 		return p
 	}
 	p.Persisted = u.store.persists(gvk)
+	subject := client.Object(objType)
 	if p.Persisted {
 		old := u.store.get(objType, nsname)
 		p.InStore = old != nil
+		if old != nil {
+			subject = old
+		}
 	}
 	pred, ok := u.stateChangedPredicates[gvk]
 	p.HasPred = ok
@@ -77,7 +83,7 @@ func (c *ChangeProcessorImpl) VerifC01PeekDelete(objType ngftypes.ObjectType, ns
 		p.Verdict = true
 		return p
 	}
-	p.Verdict = pred.delete(objType, nsname)
+	p.Verdict = pred.delete(subject, nsname)
 	return p
 }
 
